@@ -1,5 +1,112 @@
-import Anything.Model.Eval
-import Anything.Spec.Arith
+import Anything.Lemmas.C06Defs
+import Anything.Lemmas.C06Eval
+import Anything.Lemmas.C06Shift
+/-!
+# C06 — operator precedence, associativity and grouping are respected
+
+Property theorems only; the proofs live in `Lemmas/C06*.lean`.
+
+* **Stage A** (`C06_eval_represents`): the evaluator on any tree that `Represents` an expression
+  returns the exact value of `Spec.Arith.denote`, or an error when `denote` is an error.
+* **Stage B** (`C06_shiftReduce_correct`): precedence climbing with the stack discipline of the
+  grammar's `opLoop` rebuilds every well-formed expression from its flat token sequence.
+
+`Represents`, `FoldR`, `LitsOK`, `RoundOK`, `Outcome` are defined in `Lemmas/C06Defs.lean`,
+the shift-reduce machine in `Lemmas/C06Shift.lean`.
+-/
+
 namespace Anything.Props.C06
-theorem C06_placeholder : True := trivial
+open Anything Anything.Eval Anything.Spec Anything.Spec.Arith Anything.Spec.Decimal Anything.C06
+
+/-! ## Stage A — evaluator -/
+
+/-- **C06 (evaluator).** If the tree `t` represents the expression `e` (all of whose literals
+pass the number reader's `u32` guards, and whose two-argument `round`s have an `i32` second
+argument), then for every start offset, every description log and every fuel of at least
+twice the size of the tree — `Eval.query` supplies `2 * size + 2` — the evaluator returns
+exactly `denote e` as a plain number, resp. an `err` (never a panic of the model) when `denote e`
+is an error; the log is untouched. In particular an OPERATION node `x₀ o₁ x₁ … oₙ xₙ`
+evaluates as the LEFT-nested `((x₀ o₁ x₁) o₂ x₂) …` and a parenthesised group as a unit. -/
+theorem C06_eval_represents (cfg : Cfg) (t : Tree) (e : NExpr) (off fuel : Nat) (d : List Desc)
+    (h : Represents t e) (hl : LitsOK e) (hr : RoundOK e) (hf : 2 * size t ≤ fuel) :
+    Outcome (denote e) d (eval cfg fuel ⟨off, t⟩ d) :=
+  evalOK_all cfg fuel t e off d hf h hl hr
+
+/-- Value form of `C06_eval_represents`. -/
+theorem C06_eval_represents_ok (cfg : Cfg) (t : Tree) (e : NExpr) (off fuel : Nat) (d : List Desc)
+    (v : Rat) (h : Represents t e) (hl : LitsOK e) (hr : RoundOK e) (hf : 2 * size t ≤ fuel)
+    (hv : denote e = .ok v) :
+    eval cfg fuel ⟨off, t⟩ d = (.ok { value := v, unit := [] }, d) := by
+  have := C06_eval_represents cfg t e off fuel d h hl hr hf
+  rw [hv] at this
+  exact this
+
+/-- Error form of `C06_eval_represents`. -/
+theorem C06_eval_represents_err (cfg : Cfg) (t : Tree) (e : NExpr) (off fuel : Nat) (d : List Desc)
+    (x : ArithErr) (h : Represents t e) (hl : LitsOK e) (hr : RoundOK e) (hf : 2 * size t ≤ fuel)
+    (hv : denote e = .error x) :
+    ∃ k s e', eval cfg fuel ⟨off, t⟩ d = (.error (.err k s e'), d) := by
+  have := C06_eval_represents cfg t e off fuel d h hl hr hf
+  rw [hv] at this
+  exact this
+
+/-- A natural-number literal with the given decimal digits. -/
+def natLit (ds : List Nat) : Literal :=
+  { sign := none, int := ds, frac := none, exp := none, percent := false }
+
+/-- The tree the grammar builds for a plain number. -/
+def numTree (id : Nat) (s : String) : Tree := .node (id + 1) .NUMBER [.tok id .NUMBER s.toList]
+
+/-- Non-vacuity: a hand-written tree of the shape the grammar builds for `7 - 2 - (1 + 1)`
+(flat chain, nested group, blanks as childless tokens) represents the left-nested expression,
+and that expression meets the side conditions. -/
+example :
+    Represents
+      (.node 20 .OPERATION [numTree 0 "7", .tok 2 .WHITESPACE [' '],
+        .node 3 .OP_SUB [.tok 4 .DASH ['-']], numTree 5 "2",
+        .node 7 .OP_SUB [.tok 8 .DASH ['-']],
+        .node 19 .OPERATION [.tok 9 .OPEN_PAREN ['('],
+          .node 17 .OPERATION [numTree 10 "1", .node 12 .OP_ADD [.tok 13 .PLUS ['+']],
+            .tok 14 .WHITESPACE ['\t'], numTree 15 "1"],
+          .tok 18 .CLOSE_PAREN [')']]])
+      (.bin .sub (.bin .sub (.lit (natLit [7])) (.lit (natLit [2])))
+        (.paren (.bin .add (.lit (natLit [1])) (.lit (natLit [1]))))) ∧
+    LitsOK (.bin .sub (.bin .sub (.lit (natLit [7])) (.lit (natLit [2])))
+        (.paren (.bin .add (.lit (natLit [1])) (.lit (natLit [1]))))) := by
+  have n : ∀ (id : Nat) (s : String) (ds : List Nat), s.toList = renderNumber (natLit ds) →
+      Represents (numTree id s) (.lit (natLit ds)) := fun id s ds h =>
+    .num rfl rfl rfl (by simpa [numTree, Tree.text, Tree.textList] using h)
+  have lo : ∀ d, d < 10 → LitOK (natLit [d]) := by
+    intro d hd
+    refine ⟨⟨?_, ?_, ?_, ?_⟩, ?_, ?_⟩ <;> simp [natLit, fracDigits, Number.u32Max, hd]
+  refine ⟨?_, ⟨lo 7 (by omega), lo 2 (by omega)⟩, lo 1 (by omega), lo 1 (by omega)⟩
+  refine .chain (x₀ := numTree 0 "7") rfl (n 0 "7" [7] (by decide)) ?_
+  refine .cons (op := .sub) rfl (n 5 "2" [2] (by decide)) ?_
+  refine .cons (op := .sub) rfl ?_ (.nil _)
+  refine .paren (x := .node 17 .OPERATION _) rfl ?_
+  refine .chain (x₀ := numTree 10 "1") rfl (n 10 "1" [1] (by decide)) ?_
+  exact .cons (op := .add) rfl (n 15 "1" [1] (by decide)) (.nil _)
+
+/-! ## Stage B — precedence climbing at the level of the specification -/
+
+/-- **C06 (precedence climbing).** Reading the flat operand / operator sequence of a
+well-formed expression with the stack discipline of `opLoop` — push a frame on a higher
+priority, close frames while the new operator's priority is lower, extend the frame on equal
+priority — yields the expression itself, hence its value: `^` binds tighter than `*` `/`, these
+tighter than `+` `-`, and equal priorities group left to right. -/
+theorem C06_shiftReduce_correct (e : NExpr) (h : WF e) :
+    shiftReduce (flat e).1 (flat e).2 = e ∧
+    denote (shiftReduce (flat e).1 (flat e).2) = denote e := by
+  rw [shiftReduce_flat e h]; exact ⟨rfl, rfl⟩
+
+/-- Non-vacuity: `1 + 2 * 3 ^ 2 - 4` is well formed, its flat form has four operators, and a
+tree that is NOT the one the grammar assigns (`(1 + 2) * 3` without parentheses) is not `WF`. -/
+example :
+    let one := NExpr.lit (natLit [1]); let two := NExpr.lit (natLit [2])
+    let three := NExpr.lit (natLit [3]); let four := NExpr.lit (natLit [4])
+    WF (.bin .sub (.bin .add one (.bin .mul two (.bin .pow three two))) four) ∧
+    (flat (.bin .sub (.bin .add one (.bin .mul two (.bin .pow three two))) four)).2.length = 4 ∧
+    ¬ WF (.bin .mul (.bin .add one two) three) := by
+  simp [WF, flat, NExpr.prio, BinOp.prio, natLit, Literal.WF, fracDigits]
+
 end Anything.Props.C06
